@@ -48,6 +48,10 @@ PLAN = {
         "quick": [S("hook-default")],
         "thorough": [S("hook-default")],
     },
+    "C16": {
+        "quick": [S("serde-plain"), S("serde-strict", tag="strict"), S("serde-buffered", tag="buffered"), S("serde-buffered-strict", tag="buffered-strict")],
+        "thorough": [S("serde-plain"), S("serde-strict", tag="strict"), S("serde-buffered", tag="buffered"), S("serde-buffered-strict", tag="buffered-strict"), S("serde-unsafe", tag="unsafe")],
+    },
     "C17": {
         "quick": [S("hook-default"), S("m2-default-unsafe", tag="children"),
                   S("hookdbg-explore", tag="dbg-c11", check="C11", only="histories-from"),
@@ -144,6 +148,12 @@ LEVEL_TEXT = {
         "Every reader script with at most d deviations from the default answer (fill the buffer; then 0), over an 11-answer alphabet and 8 content lengths around the 1 MiB buffer, is run to completion through hash_stream_for / hash_stream; the oracle is the property itself (result of hash_buf on exactly the delivered bytes, or the first hard error as IOError).",
         "DESIGN.md section 2, C12",
         "Oracle uses hash_buf of the crate itself (judged by C01). Delivered bytes are a prefix of a fixed stream, so the expectation is cached per length.",
+        []),
+    "C16": _lt(
+        "exhaustive enumeration of scripted Deserializer/Visitor event sequences (mock Deserializer answering every request with every event kind x payload) plus exhaustive value enumeration through three real serde formats, in four feature builds",
+        "Environment enumeration at the serde seam: for is_human_readable in {true,false} the impl's request is answered with each of 20 visitor event kinds carrying each payload of a text and a binary payload alphabet (canonical, case, prefix, length +-1, empty, bad digit per field, doubled, strict-invalid checksum / length code); acceptance and value must equal the matching parser of the same build, everything else must be Err, never a panic. Real formats (serde_json, ciborium, postcard): canonical encodings and round trip on every one-byte-deviation value, and malformed / truncated / wrong-type documents. Builds: serde, serde+strict-parser, serde-buffered, serde-buffered+strict-parser.",
+        "DESIGN.md section 2, C16",
+        "Trusted: serde's data model contract for visitors; the three format crates. Bytes events in human-readable mode are only required not to be accepted with a value the text parser would not give.",
         []),
     "C17": _lt(
         "monitors attached to exhaustively enumerated executions: invariant monitor (hook) over complete domains and over contract-violating Read scripts, the other checks' enumerations re-run in a debug-assertions + overflow-checks build with panic classification, and one child process per lying-reader script in builds where invariant!() is a real optimiser assumption",
